@@ -15,11 +15,21 @@ extern int vh_die_fd;
 static char tmpdir[256];
 
 /* ---- PNG round trip / from_str (well-formed input, in process) ---- */
-static void roundtrip_case(void) {
+/* longdim: 0 ordinary shapes; 1 / 2: more than a million columns / rows (libpng's default limits end at 1000000: reader and
+ * writer have to raise them), sparse content */
+static void roundtrip_case(int longdim) {
   static const int NC[] = {1, 2, 3, 4, 5, 6, 7, 8, 9, 15, 16, 17, 31, 33, 63, 64, 65, 71, 100, 127, 128, 129, 192, 256};
   int n = NC[vh_randint(0, 23)], m = vh_randint(1, 40);
   if (vh_randint(0, 5) == 0) n = vh_randint(1, 300);
-  mzd_t *A = vh_mk_kind(m, n, vh_pick((int[]){0, 0, 1, 2, 3, 5, 6}, 7));
+  mzd_t *A;
+  if (longdim) {
+    m = longdim == 1 ? vh_randint(1, 2) : 1000001 + vh_randint(0, 50);
+    n = longdim == 1 ? 1000001 + vh_randint(0, 130) : vh_randint(1, 2);
+    A = vh_new(m, n);
+    for (int t = 0; t < 40; t++) mzd_write_bit(A, vh_randint(0, m - 1), vh_randint(0, n - 1), 1);
+    mzd_write_bit(A, m - 1, n - 1, 1);
+  } else
+  A = vh_mk_kind(m, n, vh_pick((int[]){0, 0, 1, 2, 3, 5, 6}, 7));
   int level = vh_pick((int[]){0, 1, 9, 6}, 4), wc = vh_randint(0, 1);
   char fn[320];
   snprintf(fn, sizeof fn, "%s/rt.png", tmpdir);
@@ -238,7 +248,13 @@ int fam_io(const vh_args_t *a) {
   for (int t = 0; t < nrt; t++, idx++) if (VH_SHARD(a, idx)) {
     vh_case_seed(a, idx);
     VH_CASE(idx)
-    if (t % 4 == 3) from_str_case(); else roundtrip_case();
+    if (t % 4 == 3) from_str_case(); else roundtrip_case(0);
+    VH_CASE_END
+  }
+  for (int t = 1; t <= 2; t++, idx++) if (VH_SHARD(a, idx)) {
+    vh_case_seed(a, idx);
+    VH_CASE(idx)
+    roundtrip_case(t);
     VH_CASE_END
   }
   const char *jf = strstr(a->extra, "jcf=");
